@@ -2,7 +2,7 @@
 
 use super::CheckDef;
 use crate::gen::rollback_history;
-use crate::interp::{run_history, CaseStats, RunOpts};
+use crate::interp::{run_history, CaseStats, Failure, RunOpts};
 use crate::ops::*;
 use crate::runner::*;
 use proptest::prelude::*;
@@ -12,7 +12,7 @@ pub fn def() -> CheckDef {
         meta: CheckMeta {
             id: "C06",
             level: "exploration",
-            rule: "generated histories biased to rollbacks of large write transactions (bucket deletes, overflow values, hundreds of puts), read-only transactions attempting every mutator at every nesting level, reopen cycles and failing calls; 1 in 20 histories at page size 5000 or 1032 from a 4-page file, so that the file has grown and its length is not a whole number of pages; 1 in 10 with strict mode or map-populate on. Oracles: (i) whole-file hash identical before/after a dropped write tx, a read tx, and close+reopen+read; (ii) every mutator on a reader returns ReadOnlyTx and later dumps are unchanged; (iii) after any call that returned an error the full in-tx dump equals the unchanged model; (iv) all later transactions return what the model (which never saw the abandoned work) returns and the independent parser's exact page accounting holds after every later commit. Non-trivial = rollback of a tx with >= 10 mutations or a bucket delete followed by a state-changing commit, or a read tx attempting >= 5 distinct mutator kinds. Distinct = hash of the case.",
+            rule: "generated histories biased to rollbacks of large write transactions (bucket deletes, overflow values, hundreds of puts), read-only transactions attempting every mutator at every nesting level, reopen cycles and failing calls; 1 in 20 histories at page size 5000 or 1032 from a 4-page file, so that the file has grown and its length is not a whole number of pages; 1 in 10 with strict mode or map-populate on. Oracles: (i) whole-file hash identical before/after a dropped write tx, a read tx, and close+reopen+read; (ii) every mutator on a reader returns ReadOnlyTx and later dumps are unchanged; (iii) after any call that returned an error the full in-tx dump equals the unchanged model; (iv) all later transactions return what the model (which never saw the abandoned work) returns and the independent parser's exact page accounting holds after every later commit; (v) erroring-call differential: the last transaction of a generated single-transaction case is run and committed twice on copies of the same start file, as generated and without the calls that returned an error (the bucket handles opened on their behalf are opened in both runs): both runs must replace exactly the same pages of the committed tree and yield the same contents. Non-trivial = rollback of a tx with >= 10 mutations or a bucket delete followed by a state-changing commit, or a read tx attempting >= 5 distinct mutator kinds, or a differential case with at least one failing call. Distinct = hash of the case.",
             assumptions: &[
                 "files are compared by a 64-bit hash of all bytes plus length",
                 "byte-identical files across two separate runs are not asserted (page ids depend on HashMap order)",
@@ -85,6 +85,145 @@ fn shard(ctx: &ShardCtx, known: &Known) -> ShardOut {
         }
         CaseVerdict { nontrivial: nontrivial(s), classes, failure: o.result.err() }
     });
+    err_differential(ctx, known, &mut out);
     clear_current(ctx);
     out
+}
+
+/// Case of the erroring-call differential: a history whose last transaction (committed) contains
+/// calls that return an error.
+#[derive(serde::Serialize, serde::Deserialize, Clone, Debug)]
+pub struct ErrDiffCase {
+    pub history: HistoryCase,
+}
+
+/// Pages of the start file's tree (and free-list page) that the transaction replaced, when its
+/// operations are run (skipping those marked in `skip`) on a copy of the start file and committed.
+/// Returns (replaced page ids, per-operation "returned an error", committed model).
+fn run_on_copy(start: &std::path::Path, work: &std::path::Path, cfg: &Cfg, model0: &crate::model::MBucket, ops: &[Op], skip: &[bool]) -> Result<(Vec<u64>, Vec<bool>, crate::model::MBucket), Failure> {
+    use crate::interp::*;
+    use std::collections::{BTreeSet, HashMap};
+    std::fs::copy(start, work).map_err(|e| Failure::new("io", e.to_string()))?;
+    let used = |path: &std::path::Path| -> Result<BTreeSet<u64>, Failure> {
+        let (bytes, flen) = read_prefix(path, cfg.pagesize)?;
+        let rep = crate::fsck::fsck_len(&bytes, cfg.pagesize, flen);
+        if !rep.ok() {
+            return Err(Failure::new("fsck", format!("file not well-formed: {}", rep.errors.join("; "))));
+        }
+        let mut s = BTreeSet::new();
+        for (p, n) in &rep.stats.used_runs {
+            for q in *p..*p + *n {
+                s.insert(q);
+            }
+        }
+        Ok(s)
+    };
+    let before = used(work)?;
+    let mut work_model = model0.clone();
+    let mut errored = vec![false; ops.len()];
+    let r = crate::panics::catch(|| -> Result<(), Failure> {
+        let db = open_db(cfg, work)?;
+        let arena = bumpalo::Bump::new();
+        let tx = db.tx(true).map_err(|e| Failure::new("tx_err", e.to_string()))?;
+        let mut stats = CaseStats::default();
+        {
+            let mut ctx = TxCtx { tx: &tx, arena: &arena, handles: HashMap::new(), fresh_handles: false, writable: true, stats: &mut stats, touched: vec![], tx_deleted: false, tx_inserted: false, ro_kinds: 0 };
+            for (i, op) in ops.iter().enumerate() {
+                if skip.get(i).copied().unwrap_or(false) {
+                    // the handles the harness opens on behalf of the call are opened all the same
+                    // (opening a bucket is a successful call with effects of its own at commit)
+                    touch_target(&mut ctx, op, &work_model).map_err(|f| f.at(0, Some(i)))?;
+                    continue;
+                }
+                let e0 = ctx.stats.err_returns;
+                exec_op(&mut ctx, op, &mut work_model).map_err(|f| f.at(0, Some(i)))?;
+                errored[i] = ctx.stats.err_returns > e0;
+            }
+        }
+        tx.commit().map_err(|e| Failure::new("commit_err", e.to_string()))
+    });
+    match r {
+        Err(p) => return Err(Failure::from_panic(p)),
+        Ok(Err(f)) => return Err(f),
+        Ok(Ok(())) => {}
+    }
+    let after = used(work)?;
+    let _ = std::fs::remove_file(work);
+    Ok((before.difference(&after).copied().collect(), errored, work_model))
+}
+
+pub fn run_err_diff(case: &ErrDiffCase, dir: &std::path::Path) -> (Result<(), Failure>, usize) {
+    let start = dir.join("c06-start.db");
+    let wa = dir.join("c06-a.db");
+    let wb = dir.join("c06-b.db");
+    let mut h = case.history.clone();
+    let last = match h.txs.pop() {
+        Some(t) => t,
+        None => return (Ok(()), 0),
+    };
+    // pre-sized: neither run has to grow the file
+    h.cfg = Cfg { pagesize: 1024, num_pages: 2000, strict: false, populate: false };
+    let mut opts = RunOpts::standard(start.clone());
+    opts.keep_file = true;
+    opts.final_reopen = false;
+    let o = run_history(&h, &opts);
+    if let Err(f) = o.result {
+        let _ = std::fs::remove_file(&start);
+        return (Err(f), 0);
+    }
+    let none = vec![false; last.ops.len()];
+    let res = (|| -> Result<usize, Failure> {
+        let (rep_a, errored, model_a) = run_on_copy(&start, &wa, &h.cfg, &o.model, &last.ops, &none)?;
+        let nerr = errored.iter().filter(|e| **e).count();
+        if nerr == 0 {
+            return Ok(0);
+        }
+        // the same transaction without the calls that returned an error
+        let (rep_b, errored_b, model_b) = run_on_copy(&start, &wb, &h.cfg, &o.model, &last.ops, &errored)?;
+        if errored_b.iter().any(|e| *e) {
+            // removing a failing call must not make another call fail (they changed nothing)
+            return Err(Failure::new("err_changed", "with the failing calls left out, a call that had succeeded returns an error".into()));
+        }
+        if model_a != model_b {
+            return Err(Failure::new("harness_panic", "model differs with and without the failing calls".into()));
+        }
+        if rep_a != rep_b {
+            let extra: Vec<u64> = rep_a.iter().filter(|p| !rep_b.contains(p)).copied().collect();
+            let fewer: Vec<u64> = rep_b.iter().filter(|p| !rep_a.contains(p)).copied().collect();
+            return Err(Failure::new(
+                "err_changed",
+                format!("a transaction with {} failing call(s) replaced other pages of the committed tree than the same transaction without them: additionally replaced {:?}, not replaced {:?} (a call that returned an error left a trace in the commit)", nerr, extra, fewer),
+            ));
+        }
+        Ok(nerr)
+    })();
+    for p in [&start, &wa, &wb] {
+        let _ = std::fs::remove_file(p);
+    }
+    match res {
+        Ok(n) => (Ok(()), n),
+        Err(f) => (Err(f), 0),
+    }
+}
+
+fn err_differential(ctx: &ShardCtx, known: &Known, out: &mut ShardOut) {
+    let n = ctx.tier.pick(250, 4000);
+    let strat = crate::gen::single_tx_history(30).prop_map(|mut h| {
+        if let Some(t) = h.txs.last_mut() {
+            t.kind = TxKind::Commit;
+        }
+        h.fresh_handles = false;
+        h
+    });
+    for i in 0..n {
+        let history = gen_one(&strat, mix(ctx.shard_seed("c06-errdiff"), i as u64));
+        let case = ErrDiffCase { history };
+        note_current(ctx, "c06-errdiff", &case);
+        let (r, nerr) = run_err_diff(&case, &ctx.scratch);
+        let mut classes = vec!["erroring-call differential".to_string()];
+        if nerr > 0 {
+            classes.push("differential: transaction with failing calls vs the same without them".to_string());
+        }
+        record_case(ctx, out, known, "c06-errdiff", &case, CaseVerdict { nontrivial: nerr > 0, classes, failure: r.err() });
+    }
 }
